@@ -227,16 +227,37 @@ func litmusCases() []litmusCase {
 		vrt.Sleep(5)
 	}, false)
 
-	add("unbuffered-send-unsupported", 0, func() {
+	add("unbuffered-rendezvous", 1, func() {
 		ch := make(chan int)
-		vrt.GoH("R", func() { vrt.Recv(ch) })
-		vrt.Send(ch, 1)
-	}, func(st *Stats) string {
-		if len(st.Violations) == 0 || st.Violations[0].Message[:5] != "INFRA" {
-			return "unbuffered send not flagged as unsupported"
+		done, wait := join(2)
+		got := 0
+		vrt.GoH("R", func() { got = vrt.Recv(ch); done() })
+		vrt.GoH("S", func() { vrt.Send(ch, 7); done() })
+		wait()
+		if got != 7 {
+			vrt.Failf("received %d", got)
 		}
-		return ""
-	})
+	}, viol(false))
+	add("unbuffered-send-without-receiver-blocks", 0, func() {
+		ch := make(chan int)
+		vrt.GoH("S", func() { vrt.Send(ch, 1); vrt.Fail("send on an unbuffered channel completed without a receiver") })
+		vrt.Sleep(10)
+	}, viol(false))
+	add("unbuffered-select-default", 1, func() {
+		ch := make(chan int)
+		done, wait := join(1)
+		vrt.GoH("S", func() { vrt.Send(ch, 5); done() })
+		vrt.Sleep(1) // the sender is parked now
+		switch vrt.Select(true, vrt.R(ch)) {
+		case 0:
+			if v := vrt.SelRecv(ch); v != 5 {
+				vrt.Failf("got %d", v)
+			}
+		default:
+			vrt.Fail("default taken although a sender was waiting")
+		}
+		wait()
+	}, viol(false))
 	return cases
 }
 
